@@ -14,22 +14,26 @@ class Layout(object):
     """shape: ('seq', start, size) | ('sparse', (addresses...)) in DATASTORE addresses;
     zero_mode; shared: coils/discretes one block, holding/input one block."""
 
-    def __init__(self, shape, zero_mode, shared):
+    def __init__(self, shape, zero_mode, shared, shapes=None):
         self.shape, self.zero_mode, self.shared = shape, zero_mode, shared
+        self.shapes = shapes          # optional {table: shape}: tables of different extents
         self.off = 0 if zero_mode else 1
 
     @property
     def name(self):
         s = self.shape
         core = 'seq%d+%d' % (s[1], s[2]) if s[0] == 'seq' else 'sparse' + '.'.join(map(str, s[1]))
+        if self.shapes:
+            core = 'mixed-' + '-'.join('%s%d+%d' % (t, self.shapes[t][1], self.shapes[t][2]) for t in TABLES)
         return '%s/%s/%s' % (core, 'zero' if self.zero_mode else 'one-based', 'shared' if self.shared else 'separate')
 
     @property
     def cls(self):
-        return '%s/%s/%s' % (self.shape[0], 'zero' if self.zero_mode else 'one-based', 'shared' if self.shared else 'separate')
+        return '%s/%s/%s' % ('mixed' if self.shapes else self.shape[0], 'zero' if self.zero_mode else 'one-based',
+                             'shared' if self.shared else 'separate')
 
-    def block_addresses(self):
-        s = self.shape
+    def block_addresses(self, t=None):
+        s = self.shapes[t] if (self.shapes and t) else self.shape
         return list(range(s[1], s[1] + s[2])) if s[0] == 'seq' else list(s[1])
 
     def initial_state(self):
@@ -37,7 +41,7 @@ class Layout(object):
         out = []
         for t in TABLES:
             cells = []
-            for k, b in enumerate(self.block_addresses()):
+            for k, b in enumerate(self.block_addresses(t)):
                 p = b - self.off
                 if t in BITS:
                     v = bool((k + (1 if t == 'c' else 0)) % 2)
@@ -63,7 +67,7 @@ class Layout(object):
                 blocks['h'] = blocks['i']
                 continue
             cells = [(p + self.off, v) for p, v in st[t]]
-            if self.shape[0] == 'seq':
+            if (self.shapes[t] if self.shapes else self.shape)[0] == 'seq':
                 blocks[t] = ModbusSequentialDataBlock(cells[0][0], [v for _, v in cells])
             else:
                 blocks[t] = ModbusSparseDataBlock(dict(cells))
@@ -108,6 +112,10 @@ def layouts():
         for z in (False, True):
             for sh in (False, True):
                 out.append(Layout(shape, z, sh))
+    # tables of different extents (a range valid in one table is invalid in another)
+    mixed = {'d': ('seq', 0, 6), 'c': ('seq', 0, 3), 'i': ('seq', 1, 5), 'h': ('seq', 2, 2)}
+    for z in (False, True):
+        out.append(Layout(('seq', 0, 6), z, False, shapes=mixed))
     return out
 
 
